@@ -37,7 +37,7 @@ def parse_tlc(path):
                 inst = _unq(line, 'INST')
             else:
                 tail.append(line.rstrip())
-                if 'states generated' in line and 'distinct states found' in line:
+                if 'states generated' in line and 'distinct states found' in line and not line.startswith('Progress'):
                     p = line.replace(',', '').split()
                     stats['generated'] = int(p[0])
                     stats['distinct'] = int(p[p.index('distinct') - 1])
